@@ -13,9 +13,10 @@ Done  == Len(sent) = NMsgs /\ wire = <<>>
 GInit == Init /\ hist = <<>>
 GNext == /\ ~Done
          /\ \/ \E lc \in LenClasses : SendMessage /\ hist' = Append(hist, <<"Send", lc>>)
-            \/ ActivateOutbound /\ hist' = Append(hist, <<"Switch", "">>)
+            \/ \E m \in Modes : ActivateOutbound(m) /\ hist' = Append(hist, <<"Switch", m>>)
+            \/ RaiseNeedRekey /\ hist' = Append(hist, <<"Need", "">>)
             \/ \E k \in 1..MaxChunk : Arrive(k) /\ hist' = Append(hist, <<"Arrive", ToString(k)>>)
             \/ ReadMessage /\ hist' = Append(hist, <<"Read", "">>)
 GSpec == GInit /\ [][GNext]_gvars
-EmitBeh == Done => PrintT(<<"BEH", cfg.strict, cfg.zlib, hist, delivered>>)
+EmitBeh == Done => PrintT(<<"BEH", cfg.strict, cfg.zlib, cfg.mode0, hist, delivered>>)
 =============================================================================
